@@ -562,9 +562,20 @@ func (in *Interp) boundsCheck(idx *Term, signed bool, n int, what string) int {
 		}
 		return int(i)
 	}
-	inr := tt.Cmp(OpUlt, idx, tt.Const(idx.w, uint64(n)))
+	var inr *Term
+	if idx.w < 64 && uint64(n) > mask(idx.w) {
+		inr = tt.True
+		if signed {
+			inr = tt.Cmp(OpSle, tt.Const(idx.w, 0), idx)
+		}
+	} else {
+		inr = tt.Cmp(OpUlt, idx, tt.Const(idx.w, uint64(n)))
+	}
 	if n == 0 {
 		inr = tt.False
+	}
+	if inr.IsTrue() {
+		return -1
 	}
 	tf, ff := in.feasible2(inr)
 	switch {
@@ -805,28 +816,22 @@ func (in *Interp) next(fr *Frame, x *ssa.Next) {
 		}
 		b := s.sym[it.pos]
 		ascii := tt.Cmp(OpUlt, b, tt.Const(8, 0x80))
-		if !in.feasible(tt.Not(ascii)) {
-			in.addPC(ascii)
-		} else if b.IsConst() {
-			// concrete multi-byte rune inside symbolic string
-			buf := []byte{}
-			for k := it.pos; k < s.Len() && k < it.pos+4; k++ {
-				if !s.sym[k].IsConst() {
-					break
-				}
-				buf = append(buf, byte(s.sym[k].cv))
-			}
-			r, size := utf8.DecodeRune(buf)
-			in.set(fr, x, TupleV{tt.True, tt.Const(64, uint64(it.pos)), tt.Const(32, uint64(r))})
-			it.pos += size
+		if ascii.IsTrue() || in.concBool(ascii, "range string ascii") {
+			in.set(fr, x, TupleV{tt.True, tt.Const(64, uint64(it.pos)), tt.ZExt(b, 32)})
+			it.pos++
 			return
-		} else {
-			// restrict to ASCII, recorded as an assumption of the run
-			in.note("range over symbolic string: non-ASCII bytes excluded")
-			in.addPC(ascii)
 		}
-		in.set(fr, x, TupleV{tt.True, tt.Const(64, uint64(it.pos)), tt.ZExt(b, 32)})
-		it.pos++
+		// non-ASCII lead byte: run the real decoder on the symbolic tail
+		pkg := in.prog.ImportedPackage("unicode/utf8")
+		if pkg == nil {
+			panic(unsupported("range over symbolic non-ASCII string: unicode/utf8 not loaded"))
+		}
+		dec := pkg.Func("DecodeRuneInString")
+		end := min(s.Len(), it.pos+4)
+		r := in.callSync(in.cur, &FuncV{fn: dec}, []Value{strFromTerms(s.sym[it.pos:end])}).(TupleV)
+		size := in.concretizeInt(r[1].(*Term), 1, 4, "rune size")
+		in.set(fr, x, TupleV{tt.True, tt.Const(64, uint64(it.pos)), r[0]})
+		it.pos += size
 		return
 	}
 	// map
